@@ -160,9 +160,11 @@ def _parse_remaining_text(text):
 
     it = iter(text)
     in_quotes = False
+    escaped = False
     for char in it:
-        if char == '"':
+        if char == '"' and not escaped:
             in_quotes = not in_quotes
+        escaped = char == '\\' and not escaped
         if in_quotes:
             continue
         if state == 'timestamp':
